@@ -41,6 +41,7 @@ func main() {
 	loadGolden()
 	loadPools()
 	emit(Event{"op": "Reset", "fresh_process": true, "seed": *seed, "tier": *tier, "prop": *prop})
+	flushEach = true // (write-through: about 3 us per event, and nothing observed is lost when a process dies)
 	switch cmd {
 	case "gen":
 		genFor(*prop, *tier, *seed, *arg)
@@ -152,6 +153,7 @@ func genFor(prop, tier string, seed int64, phase string) {
 			runSweeps(tier, seed, all10, 8)
 		}
 		runLongSweeps(tier, seed)
+		runChecksumCover(tier, seed)
 		runDefects(tier, seed, all10)
 		runUniform(seed, all10, "uniform")
 		runWhitespaceMix(seed, map[string]int{"quick": 300, "thorough": 4000}[tier], []int64{0, 1, 2, 3, 4, 5, 6, 7, 8, 9})
@@ -166,6 +168,9 @@ func genFor(prop, tier string, seed int64, phase string) {
 	case "C08":
 		// while the process is cold: validations under values that name no language (an id taken from a request),
 		// before any list has been used - whatever they do, the lists seen afterwards are the canonical ones
+		for l := int64(0); l < 10; l++ { // entry points added since the pinned commit, used before the old ones
+			probeNewMethods(l)
+		}
 		cold := sentence(indicesOf(newRng(seed, "c08cold").bytes(16)), 2, " ")
 		for _, l := range []int64{100, -1, 10, 1 << 31, 255} {
 			recCheck(cold, l, Event{"cls": "coldunsupported"})
